@@ -345,9 +345,9 @@ def check_C11(run):
     suites = [
         dict(name='fault-1k', consts=dict(Keys='{1}', MaxTs='2'), genlen=4,
              acts=['write', 'delete', 'close_active', 'restore_active', 'create_active', 'force_update'], nkeys=1,
-             sample=(1, 60) if q else (1, 6)),
+             sample=(1, 50) if q else (1, 4)),
         dict(name='fault-2k', consts=dict(Keys='{1, 2}', MaxTs='2'), genlen=5,
-             acts=['write', 'delete', 'close_active', 'create_active'], nkeys=2, sample=(1, 900) if q else (1, 60)),
+             acts=['write', 'delete', 'close_active', 'create_active'], nkeys=2, sample=(1, 1500) if q else (1, 40)),
     ]
     total_exec = 0
     by_plan = {}
@@ -418,9 +418,25 @@ def check_C11(run):
                     % (step.get('a'), step.get('mode'), step.get('rt'), step.get('rn'), hist, json.dumps(step.get('obs'))[:400]))
             return text, dict(kind='store-trace', action=step.get('a', ''), faulted_action=fa, mode=step.get('mode', ''))
 
-        for p, out, tr, h in procs:
-            if os.path.getsize(tr) > 0:
-                ts.judge(tr, 'ts-%s-%s' % (s['name'], os.path.basename(tr)[7:-7]), dict(s['consts']), 'C11', describe)
+        from concurrent.futures import ThreadPoolExecutor
+        jobs = [(tr, 'ts-%s-%s' % (s['name'], os.path.basename(tr)[7:-7])) for p, out, tr, h in procs if os.path.getsize(tr) > 0]
+        with ThreadPoolExecutor(max_workers=6) as ex:
+            list(ex.map(lambda j: ts.judge(j[0], j[1], dict(s['consts']), 'C11', describe), jobs))
+        # negative control: one observed record count altered, one failed call given a visible effect
+        if jobs and not run.violations:
+            lines = open(jobs[0][0]).read().splitlines()[:400]
+            evs = [json.loads(x) for x in lines]
+            cut = next((i for i, e in enumerate(evs) if i > 0 and e.get('ev') == 'reset'), len(evs))
+            one = [dict(e) for e in evs[:cut]]
+            idx = next((i for i, e in enumerate(one) if e.get('ev') == 'step' and e.get('has_obs') == 1), None)
+            if idx is not None:
+                one[idx] = json.loads(json.dumps(one[idx]))
+                one[idx]['obs']['records'] += 1
+                pth = os.path.join(run.work, 'neg-store.ndjson')
+                open(pth, 'w').write('\n'.join(json.dumps(e) for e in one) + '\n')
+                if ts.validate(pth, 'neg-store', dict(s['consts']))['ok']:
+                    raise ToolError('negative control failed: a trace with an altered record count was accepted by TraceStore')
+                run.log('negative control: altered observation rejected')
     cov = dict(evaluations=total_exec, distinct_nontrivial=total_exec, fault_plans=by_plan,
                states=ts.states, traces_validated_against_impl=ts.traces, trace_steps=ts.steps,
                rule='one execution = one TLC-generated behaviour x one fault plan (operation kind, file class, n-th occurrence, '
